@@ -75,6 +75,11 @@ def run(ctx, spec):
         P = rm.gmul(1, k)
         pts = [('valid', P), ('valid', points.rand_curve_point(rng, 1)), ('near-miss', (P[0], (P[1] + 1) % q)), ('near-miss', ((P[0] + 1) % q, P[1])),
                ('near-miss', (P[1], P[0])), ('random', (rng.randrange(q), rng.randrange(q))), ('near-miss', (P[0], 0)), ('near-miss', (0, P[1]))]
+        # x-coordinates aimed at the Montgomery quotient digits of the internal squaring (zero / all-ones digits)
+        for _ in range(3):
+            xd = gen.mont_digit_square(rng, q)
+            Pd = points.lift_x(1, xd)
+            pts.append(('valid', Pd) if Pd is not None else ('random', (xd, rng.randrange(q))))
         # y^2 = x^3 + b for another b
         x = rng.randrange(q)
         for bb in (3, 6, q - 5):
